@@ -3,6 +3,7 @@ import GBProofs.Props.C06
 import GBProofs.Props.C15
 import GBProofs.SmoothInstance
 import GBProofs.ArrayDefiniteness
+import GBProofs.FormsBridge
 /-!
 # C05 / C06 / C15 — the abstract differential-ring theorems read pointwise on genuine smooth functions
 
@@ -26,4 +27,12 @@ alias density_nonneg_of_psd := rho_nonneg
 alias posdef_kinetic_density_nonneg_of_psd := posdefKE_nonneg
 alias gradient_is_genuine_derivative := gradient_pointwise
 alias deriv_density_is_genuine_derivative := derivDensity_pointwise
+end GB.C06
+
+/-! `FormsBridge.lean`: the value that the *model* computes for a form — `Form.eval` on the numbers `D(p;q) = Σ γ_rc d^p_r d^q_c` built from
+the entries of its one-index derivative arrays (`modelForm`) — is the interpretation of that form on the genuine smooth basis functions
+(`formVal_eq_modelForm`, for every form and every γ; `modelD1_eq_iteratedFDeriv`: an entry of the derivative array is the iterated Fréchet
+derivative of `basisFnE`).  So the pointwise theorems above are statements about the numbers the compiled model prints. -/
+namespace GB.C06
+alias model_value_is_smooth_interpretation := formVal_eq_modelForm
 end GB.C06
